@@ -44,7 +44,7 @@ def configs(tier, seed):
         for index in (True, False):
             nd = len(DIMSETS[name])
             for d2c in [None] + list(range(nd)):
-                for sparse in ((False, True) if size <= (4 if tier == "quick" else 6) else (False,)):
+                for sparse in ((False, True) if size <= (4 if (tier == "quick" and name != "m3u_r2") else 6) else (False,)):
                     for fo in ((False, True) if nd >= 2 else (False,)):
                         out.append(dict(h="to_df", op=name, key=f"to_df/{name}/index={int(index)}/d2c={d2c}/sparse={int(sparse)}" + ("/F" if fo else ""), ds=name, index=index, d2c=d2c, sparse=sparse, fortran=fo))
                     if not sparse and nd >= 2:
@@ -169,7 +169,9 @@ def run(cfg, w):
     L = cfg.get("L")
     # a frame in which a numeric dimension is identified through its items only is ambiguous when values coincide
     # with those items (the property's own exception): such inputs are excluded there, and explored everywhere else
-    ambiguous_layout = (h == "headerless" and _confusable(name)) or bool(L) and _confusable(name) and (L["header"] == "items" or (L["d2c"] is not None and any(isinstance(i, (int, float)) for i in spec[L["d2c"][1]][2])))
+    ambiguous_layout = (h == "headerless" and _confusable(name)) or bool(L) and _confusable(name) and (L["header"] == "items" or (L["d2c"] is not None and any(isinstance(i, (int, float)) for i in spec[L["d2c"][1]][2]))
+                                                                                                     # (a left-out single-item numeric dimension is looked for among the remaining columns by its item)
+                                                                                                     or (L["drop_single"] and any(len(sp[2]) == 1 and isinstance(sp[2][0], (int, float)) for sp in spec)))
     dims, X, x = _arr(w, name, no_confusion=ambiguous_layout, fortran=bool(cfg.get("fortran")), nan_entry=bool(cfg.get("nan_entry")), inf_entries=bool(cfg.get("inf_entries")))
     if h == "to_df":
         d2c = None if cfg["d2c"] is None else spec[cfg["d2c"]][1]
